@@ -376,17 +376,25 @@ func c12Pair(c *rt.Ctx, o *rt.Obs, A, B c12Op, fileLike bool) {
 	}
 	nA := res.opsOf["a"]
 	c.Max("max_ops_of_one_operation", int64(nA))
-	for k := 0; k <= nA; k++ {
+	// k = nA+1: A has returned to its caller before B starts (a segment of nA
+	// operations ends with A's last storage operation, while A is still on its
+	// way back), so that the real-time order "A before B" is established
+	for k := 0; k <= nA+1; k++ {
 		segs := []store.Segment{{Client: "a", N: k}, {Client: "b", N: -1}, {Client: "a", N: -1}}
+		what := fmt.Sprintf("A=%s B=%s, A preempted after %d of %d storage operations", A, B, k, nA)
 		if k == 0 {
 			segs = segs[1:]
+		}
+		if k == nA+1 {
+			segs = []store.Segment{{Client: "a", N: -1}, {Client: "b", N: -1}}
+			what = fmt.Sprintf("A=%s B=%s, A has returned before B starts", A, B)
 		}
 		res, err := c12RunSchedule(ctx, base, fileLike, clients, segs, true)
 		if err != nil {
 			o.Violation("setup-failed", err.Error())
 			return
 		}
-		c12Judge(c, o, res, fmt.Sprintf("A=%s B=%s, A preempted after %d of %d storage operations", A, B, k, nA), k > 0 && k < nA)
+		c12Judge(c, o, res, what, k > 0 && k < nA)
 	}
 }
 
